@@ -24,6 +24,8 @@ WRITERS = ('malloc', 'flush', 'ack', 'append', 'wstr', 'wbin', 'wdir', 'wbyte', 
 SHARDS = 8
 IN_BYTES = 10          # go/inpkg/closedh.go vcInBytes: what the harness lets the connection buffer (it waits until the connection's own Len() says so) before the close
 PEER_CLOSED = ('peer', 'peeruser')
+HANDLER_MODES = ('huser', 'huserp', 'hpeer', 'hpeerp', 'hpanic')   # the close goes through an OnRequest handler task (closedh.go vcHModes)
+EOF_MODES = ('peer', 'hpeer', 'hpeerp')                            # closed by the peer and not by the user afterwards
 
 def run_shard(binary, wd, i):
     os.makedirs(wd, exist_ok=True)
@@ -50,13 +52,15 @@ def oracle(cells):
     avail = {}
     for o, r in cells.items():
         t = o.split()
-        if t[7] == 'len' and t[9] == '1' and r.startswith('ok n:'):
-            avail[tuple(t[1:7])] = int(r.split()[1][2:])
+        if t[7] == 'len' and r.startswith('ok n:') and (t[9] == '1' or tuple(t[1:7]) not in avail):
+            avail[tuple(t[1:7])] = int(r.split()[1][2:])   # first call of the len cell (handler modes only have the called-twice cell)
     bad = []
     for o, r in cells.items():
         t = o.split(); mode, meth, arg = t[1], t[7], int(t[8])
         if r == 'stuck':
             bad.append((o, r, 'the cell never returned (a call or the clean-up of the bystander connection spins for ever)')); continue
+        if r.startswith('panic outside the calls'):
+            bad.append((o, r, 'a call of the harness around the cell (setting the state up, or closing the connections at the end) panicked')); continue
         if r.startswith('setup-failed'):
             bad.append((o, r, 'harness could not reach the state')); continue
         r0 = r.split(' B=')[0]
@@ -68,18 +72,18 @@ def oracle(cells):
                 bad.append((o, r, 'call %d %ss' % (k + 1, out))); break
             if meth in WRITERS and out != 'err closed':
                 bad.append((o, r, 'Writer call on a closed connection must return ErrConnClosed')); break
-            if meth == 'close' and out != 'ok':
-                bad.append((o, r, 'Close must be idempotent')); break
+            if meth in ('close', 'detach') and out != 'ok':
+                bad.append((o, r, '%s on a closed connection must return nil (Close is idempotent)' % meth.capitalize())); break
             if meth == 'isactive' and out != 'ok n:0':
                 bad.append((o, r, 'IsActive true after close')); break
-            peer_kept = mode in PEER_CLOSED   # with or without OnConnect: no cell of the table sets an OnRequest handler
+            peer_kept = mode in PEER_CLOSED   # with or without OnConnect; the handler modes (OnRequest set: input was offered to it) are judged by Len()
             if peer_kept and meth == 'len' and k == 0 and out != 'ok n:%d' % (IN_BYTES if t[3] == '1' else 0):
                 bad.append((o, r, 'Len() after the peer closed must still report the %d bytes that were buffered' % (IN_BYTES if t[3] == '1' else 0))); break
             if meth in READERS and k == 0:
                 have = (IN_BYTES if t[3] == '1' else 0) if peer_kept else avail.get(tuple(t[1:7]))
                 need = 1 if meth == 'rbyte' else (1 if meth == 'read' and arg > 0 else arg)
                 if meth == 'until' or have is None: continue
-                want_err = 'err eof' if mode == 'peer' else 'err closed'
+                want_err = 'err eof' if mode in EOF_MODES else 'err closed'
                 if need > have:
                     if out != want_err:
                         bad.append((o, r, 'short read must fail with %s (buffered %d)' % (want_err, have))); break
